@@ -207,6 +207,47 @@ def build_harness(race=False):
     return rc == 0, out, out_bin
 
 
+def build_http2_test(race=False):
+    """go test -c of pkg/http2 with the overlay test harness (zz_verif_test.go) from the working tree."""
+    out_bin = f'{BUILD}/http2' + ('-race' if race else '') + '.test'
+    with Lock('go'):
+        write_overlay()
+        cmd = ['go', 'test', '-c', '-vet=off'] + go_overlay_args() + (['-race'] if race else []) + ['-o', out_bin, './pkg/http2']
+        rc, out = sh(cmd, cwd=REPO, env=GOENV, timeout=1800)
+    return rc == 0, out, out_bin
+
+
+def exec_http2(test_bin, ops_path, impl_path, shards=12, timeout=3000):
+    """Execute an ops file with the pkg/http2 test harness, sharded over processes; writes impl_path."""
+    lines = [l for l in open(ops_path).read().split('\n') if l.strip()]
+    n = max(1, min(shards, len(lines) // 20 or 1))
+    per = (len(lines) + n - 1) // n
+    procs = []
+    for i in range(n):
+        part = lines[i * per:(i + 1) * per]
+        if not part:
+            continue
+        op, ip = f'{ops_path}.s{i}', f'{impl_path}.s{i}'
+        open(op, 'w').write('\n'.join(part) + '\n')
+        e = dict(os.environ, VERIF_OPS=op, VERIF_OUT=ip, GOMAXPROCS='2')
+        pr = subprocess.Popen([test_bin, '-test.run', 'TestVerifExec$', f'-test.timeout={timeout}s'],
+                              env=e, stdout=subprocess.PIPE, stderr=subprocess.STDOUT, text=True, errors='replace')
+        procs.append((pr, ip, len(part)))
+    out_lines = []
+    for pr, ip, cnt in procs:
+        o, _ = pr.communicate(timeout=timeout + 120)
+        got = open(ip).read().split('\n') if os.path.exists(ip) else []
+        if got and got[-1] == '':
+            got.pop()
+        if pr.returncode != 0 or len(got) != cnt:
+            # the harness process died mid-way (a panic in the server under test kills it): mark the rest
+            got = got + ['harness-crashed'] * (cnt - len(got))
+            got = got[:cnt]
+            sys.stderr.write(f'http2 harness shard rc={pr.returncode}: {o[-1500:]}\n')
+        out_lines += got
+    open(impl_path, 'w').write('\n'.join(out_lines) + '\n')
+
+
 def go_test(pkg, run, race=False, timeout=1200, extra_env=None, args=None):
     """go test a repo package with the overlay test files added."""
     with Lock('go'):
